@@ -112,10 +112,12 @@ Lemma ws3_members :
   resolve_member ws3 s_aLeaf s_Zz = [].
 Proof. vm_compute. repeat split; reflexivity. Qed.
 
-(* own class after a dot: the parameter Fa comes first *)
+(* own class after a dot: the members only (fix 945552f); the old step answered the parameter Fa first *)
 Lemma ws3_own_member :
-  definition_member ws3 s_aLeaf leaf_run s_aLeaf s_Fa = [(s_aLeaf, 3); (s_aMid, 1); (s_aBase, 2)] /\
+  definition_member ws3 s_aLeaf leaf_run s_aLeaf s_Fa = [(s_aMid, 1); (s_aBase, 2)] /\
+  map to_target (search_all (member_chain_old ws3 s_aLeaf leaf_run s_aLeaf) s_Fa) = [(s_aLeaf, 3); (s_aMid, 1); (s_aBase, 2)] /\
   members_all ws3 s_aLeaf s_Fa = [(s_aMid, 1); (s_aBase, 2)] /\
+  definition_method_name ws3 s_aLeaf s_Run = [(s_aLeaf, 2); (s_aBase, 4)] /\
   special ws3 s_Fa = false.
 Proof. vm_compute. repeat split; reflexivity. Qed.
 
@@ -126,8 +128,10 @@ Proof. vm_compute. reflexivity. Qed.
 
 Lemma ws3_after_dot :
   complete_after_dot ws3 s_aLeaf = [s_Fb; s_Run; s_FA; s_cA; s_Ga; s_Link] /\
-  completion_member ws3 s_aLeaf leaf_run s_aLeaf = [s_Run; s_cA; s_Ga; s_Link] /\
-  completion_member ws3 s_aMid (Some s_Ga) s_aLeaf = [s_Fb; s_Run; s_FA; s_cA; s_Ga; s_Link].
+  completion_member ws3 s_aLeaf leaf_run s_aLeaf = [s_Fb; s_Run; s_FA; s_cA; s_Ga; s_Link] /\
+  completion_member ws3 s_aMid (Some s_Ga) s_aLeaf = [s_Fb; s_Run; s_FA; s_cA; s_Ga; s_Link] /\
+  (* the step before fix 945552f: FA and Fb hidden by the parameter Fa and the local Fb *)
+  map sid (filter is_member_kind (collect (member_chain_old ws3 s_aLeaf leaf_run s_aLeaf))) = [s_Run; s_cA; s_Ga; s_Link].
 Proof. vm_compute. repeat split; reflexivity. Qed.
 
 Lemma ws3_plain_completion :
@@ -150,12 +154,14 @@ Lemma ws3_entity_name :
   resolve_plain ws3 s_aLeaf leaf_run s_self = Some (s_aLeaf, 0).
 Proof. vm_compute. repeat split; reflexivity. Qed.
 
-(* static types along a chain: self.Link is an aLeaf, self.Ga an aBase, self.Fb (the local) an aBase *)
+(* static types along a chain: self.Link is an aLeaf, self.Ga() an aBase; self.Fb is the FIELD Fb : int4
+   (fix 945552f: not the local Fb : aBase), so `self.Fb.` has no proposals *)
 Lemma ws3_static :
   static_class ws3 s_aLeaf leaf_run [IId s_self; IId s_Link] = Some (SClass s_aLeaf) /\
   static_class ws3 s_aLeaf leaf_run [IId s_self; ICall s_Ga] = Some (SClass s_aBase) /\
-  static_class ws3 s_aLeaf leaf_run [IId s_self; IId s_Fa] = None /\
-  completion_dotted ws3 s_aLeaf leaf_run [IId s_self; IId s_Fa] = [].
+  static_class ws3 s_aLeaf leaf_run [IId s_Fb] = Some (SClass s_aBase) /\
+  static_class ws3 s_aLeaf leaf_run [IId s_self; IId s_Fb] = None /\
+  completion_dotted ws3 s_aLeaf leaf_run [IId s_self; IId s_Fb] = [].
 Proof. vm_compute. repeat split; reflexivity. Qed.
 
 (* ---- `uses` ---- *)
@@ -178,22 +184,23 @@ Lemma w_fwd_facts :
   definition_dotted w_fwd s_aNode (Some s_Last) [IId s_self; IId s_Later] s_Val = [(s_aNode, 1)].
 Proof. vm_compute. repeat split; reflexivity. Qed.
 
-(* ---- a call after a module qualifier ---- *)
+(* ---- a call after a module qualifier (fix 4a7e667) ---- *)
 Lemma w_modcall_facts :
   static_class w_modcall s_aUser (Some s_Run) [IId s_aModUtil; IId s_Make] = Some (SClass s_aUser) /\
-  static_class w_modcall s_aUser (Some s_Run) [IId s_aModUtil; ICall s_Make] = None.
+  static_class w_modcall s_aUser (Some s_Run) [IId s_aModUtil; ICall s_Make] = Some (SClass s_aUser) /\
+  definition_dotted w_modcall s_aUser (Some s_Run) [IId s_aModUtil; ICall s_Make] s_Run = [(s_aUser, 1)].
 Proof. vm_compute. repeat split; reflexivity. Qed.
 
-(* ---- declared names ---- *)
+(* ---- declared names (fix efb255c) ---- *)
 Lemma w_declname_facts :
-  definition_member_name w_declname s_aDecl MConst s_cA = [] /\ members_all w_declname s_aDecl s_cA = [(s_aDecl, 1)] /\
-  definition_member_name w_declname s_aDecl MType s_tA = [] /\ members_all w_declname s_aDecl s_tA = [(s_aDecl, 2)] /\
-  definition_member_name w_declname s_aDecl MField s_Fa = [(s_aDecl, 3)].
+  definition_member_name w_declname s_aDecl s_cA = [(s_aDecl, 1)] /\
+  definition_member_name w_declname s_aDecl s_tA = [(s_aDecl, 2)] /\
+  definition_member_name w_declname s_aDecl s_Fa = [(s_aDecl, 3)] /\
+  special w_declname s_cA = false.
 Proof. vm_compute. repeat split; reflexivity. Qed.
 
-(* ---- a function's return type ---- *)
+(* ---- a function's return type is a type reference (fix 7983abd) ---- *)
 Lemma w_ret_facts :
-  definition_method_header w_ret s_aUser s_Make s_tLib = [] /\
   visible w_ret s_aUser (Some s_Make) s_tLib = Some (s_aLib, 1) /\
   resolve_plain w_ret s_aUser (Some s_Make) s_tLib = Some (s_aLib, 1) /\
   special w_ret s_tLib = false.
